@@ -88,4 +88,11 @@ func init() {
 	c14 := checkDefs["C14"]
 	c14.Scens = []scenBudget{{"sl", 30000, 1000000}, {"nitro", 8000, 250000}}
 	c14.Real = append(c14.Real, nReal...)
+
+	defCheck(&checkDef{Prop: "C08", Level: "exploration",
+		Scens:  []scenBudget{{"handles", 30000, 1500000}, {"nitro", 6000, 200000}},
+		Rule:   nitroRule("1-3 snapshots, 1-4 handle tasks per snapshot looping Open -> (scan | NewIterator -> scan -> Iterator.Close) -> Close without any harness-side protection, racing the owner's final Close; then 1-3 later snapshots are created and closed; oracle: porcupine counter spec per snapshot (Open succeeds iff count>0), exact scans through handles obtained by a successful Open, and at quiescence after GC(): GetSnapshots empty, GetLastGCSn == highest snapshot, physical set == live set"),
+		Real:   nReal, Stubbed: nStub, Assume: nAssume,
+		WarnProbe: []string{"handle_ops"},
+	})
 }
